@@ -5,7 +5,7 @@ import numpy as np
 from hypothesis import strategies as st
 
 from .. import gens, sched
-from ..api import GridPart, Part, Res
+from ..api import FuzzPart, GridPart, Part, Res
 
 PROPERTY_ID = "C04"
 RULE = (
@@ -188,6 +188,8 @@ PARTS = [
     Part("configs", sched.config, oracle, n_quick=500, n_thorough=6000),
     Part("log_configs", log_config, oracle, n_quick=250, n_thorough=3000),
     GridPart("small_grid", sched.grid_configs, oracle),
+    # thorough tier only: coverage-guided campaign on the pure-Python schedulers (same oracle inside the target)
+    FuzzPart("atheris", "harness.fuzz_sched", runs_quick=2000, runs_thorough=25000, oracle=oracle),
     Part("force_nf", force_case, oracle_force, n_quick=12, n_thorough=60),
 ]
 QUOTAS = {"logregion>=5bins": {"quick": 300, "thorough": 5000}, "vec-vs-ltf": {"quick": 300, "thorough": 5000},
